@@ -241,7 +241,7 @@ def check(tier):
         if which == "safe":
             ck.add_mutant(name, m, "safe", "harness.C06", "safe_job", dict(cases=[(2, 1, -2, 2), (1, 1, -3, 3)]))
         else:
-            ck.add_mutant(name, m, "ma", "harness.C06", "massaction_job", dict(cases=mc[:12]))
+            ck.add_mutant(name, m, "ma", "harness.C06", "massaction_job", dict(cases=[x for x in mc if len(x[0]) >= 2 and len(set(x[0])) < len(x[0])][:8] + mc[:6]))
     ck.oracle_selftest = [{'kind': 'ssa'}, {'kind': 'delay'}]
     ck.validate = ['delay_ssa', 'ssa']
     ck.run()
